@@ -58,7 +58,8 @@ RECURSIVE Assignable(_, _), AllAssignable(_, _), HasUnknown(_), AnyUnknown(_)
 
 AllAssignable(rs, ss) == Len(rs) = Len(ss) /\ \A i \in 1..Len(rs) : Assignable(rs[i], ss[i])
 
-\* `sup` can be supplied where `req` is required (no generic variables on either side)
+\* `sup` can be supplied where `req` is required (generic variables only as rigid parameters of an
+\* enclosing generic function; binding of a callee's own parameters is XrOverload's business)
 Assignable(req, sup) ==
     IF sup.k = "unknown" THEN TRUE                       \* the bottom type fits anything
     ELSE IF req.k # sup.k THEN FALSE
@@ -68,6 +69,9 @@ Assignable(req, sup) ==
            [] req.k = "tup" -> AllAssignable(req.items, sup.items)
            [] req.k = "comp" -> req.name = sup.name /\ AllAssignable(req.args, sup.args)
            [] req.k = "fn" -> AllAssignable(req.ps, sup.ps) /\ Assignable(req.r, sup.r)   \* exact arity
+           \* inside the body of a generic function its own type parameters are opaque ("rigid"):
+           \* T is assignable to T and to nothing else, and nothing else to T
+           [] req.k = "var" -> req.n = sup.n
            [] OTHER -> FALSE
 
 AnyUnknown(xs) == \E i \in 1..Len(xs) : HasUnknown(xs[i])
